@@ -163,7 +163,8 @@ def judge(ctx, case):
         xs = (x - x.mean()) / x.std()
         vand = np.column_stack([xs ** k for k in range(d + 1)])
         vand = vand / np.sqrt((vand ** 2).sum(axis=0))
-        if np.linalg.cond(vand) > 1e10:
+        # the recurrence runs on the data as given: an offset costs further digits on top of the conditioning of the basis
+        if np.linalg.cond(vand) * max(1.0, abs(float(x.mean())) / float(x.std())) > 1e10:
             # e.g. six points within 0.005 of each other and one at 5: degree 6 is not resolvable in double precision
             ctx.classes["unjudged:polynomial_basis_ill_conditioned"] += 1
             return
